@@ -287,6 +287,13 @@ func c18Marks(e *Env, env *c18Env) {
 		{"condition loop body", "for len(zxs) > 0 { undefined_zq }", "+b,+l,e1:p,+b,!", 0, func(s *c18Stmt) { s.IsExpr, s.Leaves = false, false }},
 		{"switch case body", "switch 1 { case 1: undefined_zq }", "+s,+b,!", 1, func(s *c18Stmt) { s.IsExpr = false }},
 		{"pipe inside a loop", "for _, zv := range zxs { zv | zid | undefined_zq }", "+b,+l,+b,+p,e1:-,!", 2, func(s *c18Stmt) { s.IsExpr, s.Leaves = false, false }},
+		// compile errors INSIDE function bodies (outside the model's guard until C18-compiler-stuck-in-function was repaired)
+		{"function literal body", "func() { undefined_zq }", "+f,!", 0, func(s *c18Stmt) { s.InFn = true }},
+		{"named function body after a call", "func zq8() { return len(zxs) + undefined_zq }", "+f,e1:p,!", 0, func(s *c18Stmt) { s.IsExpr, s.InFn, s.CDecl = false, true, []string{"zq8"} }},
+		{"pipe inside a function literal", "func() { return zxs | sorted | undefined_zq }", "+f,+p,e1:-,!", 0, func(s *c18Stmt) { s.InFn = true }},
+		{"function literal as a call argument", "zid(func() { return undefined_zq })", "+f,!", 1, func(s *c18Stmt) { s.InFn = true }},
+		{"loop inside a function literal inside a pipe", "zxs | func(v) { for _, zv := range v { undefined_zq } }", "+p,+f,+b,+l,+b,!", 1, func(s *c18Stmt) { s.InFn = true }},
+		{"nested function literals, constant assigned to", "func() { return func() { zk = 2 } }", "+f,+f,!", 0, func(s *c18Stmt) { s.InFn = true; s.Uses, s.Asg = []string{"zk"}, []string{"zk"} }},
 	}
 	// accepted pieces: every form that emits a call, and a few that do not
 	use := func(names ...string) func(*c18Stmt) { return func(s *c18Stmt) { s.Uses = names } }
@@ -341,7 +348,7 @@ func c18Marks(e *Env, env *c18Env) {
 		}
 		ps = append(ps, final())
 		evs = append(evs, "e1:p,e2:p")
-		h := &c18History{Pieces: ps, Names: []string{"zxs", "zid", "zn1", "zs1", "zg1", "zq9"}}
+		h := &c18History{Pieces: ps, Names: []string{"zxs", "zid", "zn1", "zs1", "zg1", "zq9", "zq8"}}
 		text := h.Text()
 		e.R.Case("compile-only state\n"+text, true)
 		e.R.H("history_kind", "compile-only state: "+tag)
@@ -372,10 +379,7 @@ func c18Marks(e *Env, env *c18Env) {
 			got := c18CallPattern(r.Frag)
 			e.R.H("marks_call_forms", got)
 			if got != spat {
-				finding := ""
-				if got == pat && strings.Contains(left, "f") {
-					finding = "C18-compiler-stuck-in-function"
-				}
+				finding := "" // C18-compiler-stuck-in-function was repaired: a recurrence is an unlisted violation
 				e.R.Spec(text, fmt.Sprintf("piece %d `%s`: calls emitted as %q (C = Call, P = Partial), a compiler that has seen no rejected piece emits %q", i, srcs[i], got, spat), finding)
 			}
 			if got != pat {
